@@ -6,6 +6,9 @@
 //   C15_fifo replay <out> <C-line tokens...>            one case from its parameter line
 //   C15_fifo gray <out>                                 grayEncode / grayDecode, widths 1..10, all values
 //   C15_fifo other <seed> <quick|thorough> <out>        TransactionalFifo, FifoArray, strm::fifo traces
+//   C15_fifo strm <seed> <quick|thorough|search> <out>  strm::fifo for every FifoLatency option (0 = fall-through) x depth
+//   C15_fifo sreplay <out> <S-line tokens...>           one strm::fifo case from its parameter line
+//   C15_fifo lat <out>                                  table of the latencies / depth FifoCapabilities::select reports
 //
 // Line formats (see ocaml/C15_driver.ml, checks/C15.py):
 //   C <id> k= L= dual= lvlF= lvlE= | generator parameters (minDepth lat fp fo trP trO pp seed ph plen w)
@@ -13,6 +16,10 @@
 //      outputs are the pre-edge values (WaitClock::DURING), i.e. what the registers clocked at this
 //      instant see; acc = pushReq & !full, del = popReq & !empty (the interface contract).
 //   G <w> <x> | <grayEncode(x)> <grayDecode_w(x)>
+//   S <id> k= L= ft= | depth= minDepth= lat= pp= seed= script= n= w=      strm::fifo case; k, L = what the FifoMeta of the
+//                                                                         instance built inside strm::fifo reports
+//   s <valid_in> <data_in> <ready_out> | <ready_in> <valid_out> <data_out|X>
+//   Q dev= dual= lat= minDepth= | depth= we= rf= wae= raf= single=        selected FifoCapabilities::Choice
 #include "vh.h"
 #include <gatery/scl/Fifo.h>
 #include <gatery/scl/TransactionalFifo.h>
@@ -20,6 +27,10 @@
 #include <gatery/scl/stream/strm.h>
 #include <gatery/scl/stream/streamFifo.h>
 #include <gatery/scl/cdc.h>
+#include <gatery/hlim/NodeGroup.h>
+#include <gatery/scl/arch/intel/IntelDevice.h>
+#include <gatery/scl/arch/xilinx/XilinxDevice.h>
+#include <gatery/scl/arch/xilinx/FifoPattern.h>
 #include <map>
 #include <deque>
 
@@ -249,6 +260,8 @@ std::vector<Params> genCases(uint64_t seed, const std::string &tier)
 		// small depths more often: boundaries are reached more often per simulated cycle
 		p.minDepth = rng.below(3) ? depths[rng.below(9)] : depths[rng.below(depths.size())];
 		if (!quick && rng.below(8) == 0) p.minDepth = 1 + rng.below(64);
+		// beyond 64 (block-RAM sized): rarer, they are long
+		if (rng.below(quick ? 16 : 12) == 0) { static const size_t big[] = { 65, 100, 128, 129, 256, 512 }; p.minDepth = big[rng.below(quick ? 4 : 6)]; }
 		p.pp = rng.below(4) != 0;
 		p.seed = rng.next() % 1000000007ull;
 		p.w = rng.below(5) == 0 ? 1 + rng.below(16) : 8;
@@ -539,6 +552,195 @@ void runOther(uint64_t seed, const std::string &tier, std::ostream &out)
 	}
 }
 
+
+// ---------------------------------------------------------------- strm::fifo, every latency option incl. fall-through
+struct SParams {
+	std::string id = "s";
+	size_t minDepth = 16;
+	char latKind = 'S'; size_t latVal = 0;   // S0 = fall-through
+	bool pp = true;
+	uint64_t seed = 1;
+	std::string script = "-";   // explicit prefix, one char per cycle: - idle, v valid only, r ready only, b both
+	size_t n = 0;               // cycles (0: derive)
+	size_t w = 8;
+	int profile = 0;            // request profile of the seeded part
+};
+
+scl::FifoMeta *findFifoMeta(hlim::NodeGroup *g)
+{
+	if (auto *m = dynamic_cast<scl::FifoMeta*>(g->getMetaInfo())) return m;
+	for (auto &c : g->getChildren()) if (auto *m = findFifoMeta(c.get())) return m;
+	return nullptr;
+}
+
+void runStrm(const SParams &p, std::ostream &out)
+{
+	DesignScope design;
+	Clock clk({ .absoluteFrequency = 100'000'000 });
+	ClockScope cs(clk);
+	BitWidth w{ p.w };
+	scl::RvStream<UInt> in{ .data = w };
+	pinIn(in, "in");
+	scl::FifoLatency lat = p.latKind == 'S' ? scl::FifoLatency(p.latVal) : p.latKind == 'L' ? scl::FifoLatency::AtLeast(p.latVal)
+		: p.latKind == 'M' ? scl::FifoLatency::AtMost(p.latVal) : scl::FifoLatency::DontCare();
+	// the real entry point: builds its own scl::Fifo (latency 0 -> FifoLatency(1) + bypass)
+	scl::RvStream<UInt> o = scl::strm::fifo(move(in), p.minDepth, lat);
+	pinOut(o, "out");
+	scl::FifoMeta *meta = findFifoMeta(design.getCircuit().getRootNodeGroup());
+	if (!meta) throw std::runtime_error("no scl_fifo meta info found below strm::fifo");
+	size_t depth = meta->fifoChoice.readDepth, L = meta->fifoChoice.latency_writeToEmpty, L2 = meta->fifoChoice.latency_readToFull;
+	bool single = meta->fifoChoice.singleClock;
+	size_t k = 0; while ((size_t(1) << k) < depth) k++;
+	if (p.pp) design.postprocess();
+	bool ft = p.latKind == 'S' && p.latVal == 0;
+	size_t n = p.n ? p.n : std::min<size_t>(8 * depth + 160, 2600);
+	out << "S " << p.id << " k=" << k << " L=" << L << " ft=" << (ft ? 1 : 0) << " | depth=" << depth << " L2=" << L2 << " single=" << (single ? 1 : 0)
+		<< " minDepth=" << p.minDepth << " lat=" << p.latKind << p.latVal << " pp=" << (p.pp ? 1 : 0) << " seed=" << p.seed
+		<< " script=" << p.script << " n=" << n << " w=" << p.w << " profile=" << p.profile << "\n";
+	sim::ReferenceSimulator s(false);
+	uint64_t mask = p.w >= 64 ? ~0ull : ((1ull << p.w) - 1);
+	s.addSimulationProcess([&]()->SimProcess {
+		vh::Rng rng(p.seed * 2 + 1);
+		bool v = false, r = false; uint64_t dat = 0; uint64_t serial = 0;
+		simu(valid(in)) = '0'; simu(*in) = 0; simu(ready(o)) = '0';
+		size_t seg = 2 * std::min<size_t>(depth, 160) + 24;
+		for (size_t i = 0; i < n; i++) {
+			co_await OnClk(clk);
+			auto rdy = simu(ready(in));
+			out << "s " << (v ? 1 : 0) << " " << dat << " " << (r ? 1 : 0) << " | " << bitStr(rdy) << " " << bitStr(simu(valid(o))) << " " << numStr(simu(*o)) << "\n";
+			bool fired = v && rdy.allDefined() && (bool)rdy;
+			bool wantV, wantR;
+			// first cycle stays idle (reset); then the scripted prefix, then the seeded profile
+			if (i < 1) { wantV = false; wantR = false; }
+			else if (p.script != "-" && i - 1 < p.script.size()) { char c = p.script[i - 1]; wantV = c == 'v' || c == 'b'; wantR = c == 'r' || c == 'b'; }
+			else {
+				int mode = (p.profile + int(i / seg)) % 6;
+				// 0: trickle around empty (the fall-through window); 1: fill; 2: drain; 3: both always; 4: random; 5: single beats into a stalled consumer
+				int pv = mode == 0 ? 3 : mode == 1 ? 8 : mode == 2 ? 1 : mode == 3 ? 8 : mode == 4 ? 4 : 2;
+				int pr = mode == 0 ? 5 : mode == 1 ? 1 : mode == 2 ? 8 : mode == 3 ? 8 : mode == 4 ? 4 : 3;
+				wantV = int(rng.below(8)) < pv; wantR = int(rng.below(8)) < pr;
+			}
+			// a valid beat that was not taken must be held unchanged (stream protocol)
+			if (!v || fired) { v = wantV; if (v) dat = (++serial * 37 + (rng.next() & 1)) & mask; }
+			r = wantR;
+			simu(valid(in)) = v ? '1' : '0'; simu(*in) = dat; simu(ready(o)) = r ? '1' : '0';
+		}
+	});
+	s.compileProgram(design.getCircuit());
+	s.powerOn();
+	s.advance(hlim::ClockRational(n + 4, 1) / clk.absoluteFrequency());
+}
+
+std::vector<SParams> genStrm(uint64_t seed, const std::string &tier)
+{
+	std::vector<SParams> cs;
+	vh::Rng rng(seed * 104729 + (tier == "quick" ? 11 : tier == "thorough" ? 12 : 13));
+	std::vector<size_t> depths = { 1, 2, 4, 5, 16, 17, 64, 65, 128, 129, 512 };
+	struct Lat { char k; size_t v; };
+	std::vector<Lat> lats = { {'S',0}, {'S',1}, {'S',2}, {'S',3}, {'D',0}, {'L',1}, {'M',1}, {'M',3} };
+	size_t rounds = tier == "quick" ? 1 : tier == "thorough" ? 8 : 3;
+	size_t idx = 0;
+	for (size_t rd = 0; rd < rounds; rd++)
+		for (auto d : depths) for (auto l : lats) {
+			// the whole grid once per round; fall-through gets three schedules per grid point
+			size_t reps = (l.k == 'S' && l.v == 0) ? 3 : 1;
+			if (tier == "quick" && d == 512 && !(l.k == 'S' && l.v <= 1)) continue;
+			for (size_t rep = 0; rep < reps; rep++) {
+				SParams p;
+				p.id = "s" + std::to_string(idx++);
+				p.minDepth = d; p.latKind = l.k; p.latVal = l.v;
+				if (rd > 0 && rng.below(4) == 0) p.minDepth = 1 + rng.below(600);
+				p.pp = rng.below(4) != 0;
+				p.seed = rng.next() % 1000000007ull;
+				p.w = rng.below(4) == 0 ? 3 + rng.below(12) : 8;
+				p.profile = int(rng.below(6));
+				// aimed prefix: beat A into the empty FIFO with a stalled consumer, beat B with a ready consumer, in
+				// several spacings; then let it drain and repeat
+				static const char *scripts[] = { "vb-rrrr", "vbbrrr-vb", "v-b-rrr", "-", "vvbrr-vrb-rr", "bvbvbrrrr", "vrvrbb-rr", "-" };
+				p.script = rep == 0 ? scripts[rng.below(3)] : scripts[rng.below(8)];
+				cs.push_back(p);
+			}
+		}
+	return cs;
+}
+
+SParams parseSParams(const std::vector<std::string> &toks)
+{
+	SParams p;
+	size_t i = 0;
+	if (i < toks.size() && toks[i] == "S") i++;
+	if (i < toks.size() && toks[i].find('=') == std::string::npos) p.id = toks[i++];
+	for (; i < toks.size(); i++) {
+		auto eq = toks[i].find('=');
+		if (eq == std::string::npos) continue;
+		std::string key = toks[i].substr(0, eq), v = toks[i].substr(eq + 1);
+		if (key == "minDepth") p.minDepth = std::stoull(v);
+		else if (key == "lat") { p.latKind = v[0]; p.latVal = std::stoull(v.substr(1)); }
+		else if (key == "pp") p.pp = v != "0";
+		else if (key == "seed") p.seed = std::stoull(v);
+		else if (key == "script") p.script = v;
+		else if (key == "n") p.n = std::stoull(v);
+		else if (key == "w") p.w = std::stoull(v);
+		else if (key == "profile") p.profile = std::stoi(v);
+	}
+	return p;
+}
+
+// ---------------------------------------------------------------- table of selected latencies
+void latRow(std::ostream &out, const std::string &dev, bool dual, char lk, size_t lv, size_t minDepth)
+{
+	Params p; p.latKind = lk; p.latVal = lv; p.minDepth = minDepth; p.dual = dual;
+	out << "Q dev=" << dev << " dual=" << (dual ? 1 : 0) << " lat=" << lk << lv << " minDepth=" << minDepth << " | ";
+	try {
+		DesignScope design;
+		if (dev == "intel_max10") { auto d = std::make_unique<scl::IntelDevice>(); d->setupMAX10(); design.setTargetTechnology(std::move(d)); }
+		if (dev == "xilinx_zynq7") { auto d = std::make_unique<scl::XilinxDevice>(); d->setupZynq7(); design.setTargetTechnology(std::move(d)); }
+		if (dev == "direct_default" || dev == "direct_xilinx7") {
+			// the capability object itself, asked the way Fifo<T>::finalFifoSelection asks
+			FifoCapabilities::Request rq;
+			rq.readDepth.atLeast(minDepth); rq.readWidth = 8; rq.writeWidth = 8;
+			auto lat = mkLatency(p);
+			if (dual) { auto m = scl::FifoLatency::AtLeast(4).mergeWith(lat); if (!m) throw std::runtime_error("merge failed"); lat = *m; }
+			rq.latency_writeToEmpty = lat; rq.latency_readToFull = lat; rq.latency_writeToAlmostEmpty = lat; rq.latency_readToAlmostFull = lat;
+			rq.singleClock = !dual;
+			FifoCapabilities base; scl::arch::xilinx::Xilinx7SeriesFifoCapabilities x7;
+			FifoCapabilities::Choice c = dev == "direct_default" ? base.select(nullptr, rq) : x7.select(nullptr, rq);
+			out << "depth=" << c.readDepth << " we=" << c.latency_writeToEmpty << " rf=" << c.latency_readToFull << " wae=" << c.latency_writeToAlmostEmpty
+				<< " raf=" << c.latency_readToAlmostFull << " single=" << (c.singleClock ? 1 : 0) << "\n";
+			return;
+		}
+		Clock wr({ .absoluteFrequency = 100'000'000, .name = "wr" });
+		std::optional<Clock> rdo; if (dual) rdo.emplace(ClockConfig{ .absoluteFrequency = 133'000'000, .name = "rd" });
+		Clock rd = dual ? *rdo : wr;
+		XFifo fifo{ minDepth, UInt{ 8_b }, mkLatency(p) };
+		Bit push, pop; UInt pushData = 8_b;
+		{ ClockScope cs(wr); IF(push) fifo.push(pushData); push = pinIn().setName("push"); pushData = pinIn(8_b).setName("data"); pinOut(fifo.full()).setName("full"); }
+		{ ClockScope cs(rd); UInt pk = fifo.peek(); IF(pop) fifo.pop(); pop = pinIn().setName("pop"); pinOut(pk).setName("peek"); pinOut(fifo.empty()).setName("empty"); }
+		{ ClockScope cs(wr); fifo.generate(); }
+		auto &c = fifo.choice();
+		out << "depth=" << c.readDepth << " we=" << c.latency_writeToEmpty << " rf=" << c.latency_readToFull << " wae=" << c.latency_writeToAlmostEmpty
+			<< " raf=" << c.latency_readToAlmostFull << " single=" << (c.singleClock ? 1 : 0) << "\n";
+	} catch (const std::exception &e) {
+		std::string msg = e.what(); for (auto &ch : msg) if (ch == '\n') ch = ' ';
+		out << "error=" << msg.substr(0, 160) << "\n";
+	}
+}
+
+void runLatTable(std::ostream &out)
+{
+	std::vector<size_t> depths = { 1, 4, 16, 64, 65, 128, 512, 4096 };
+	for (std::string dev : { "none", "intel_max10", "xilinx_zynq7", "direct_default", "direct_xilinx7" })
+		for (int dual = 0; dual < 2; dual++) {
+			if (dual && dev == "direct_xilinx7") continue; // asserts "Dual clock not yet implemented"
+			for (auto d : depths) {
+				for (size_t v = dual ? 4 : 1; v <= 7; v++) latRow(out, dev, dual, 'S', v, d);
+				latRow(out, dev, dual, 'D', 0, d);
+				for (size_t v = 0; v <= 7; v++) latRow(out, dev, dual, 'L', v, d);
+				for (size_t v = dual ? 4 : 1; v <= 6; v++) latRow(out, dev, dual, 'M', v, d);
+			}
+		}
+}
+
 } // namespace
 
 int main(int argc, char **argv)
@@ -570,6 +772,25 @@ int main(int argc, char **argv)
 			uint64_t seed = strtoull(argv[2], nullptr, 10);
 			std::ofstream out(argv[4]);
 			runOther(seed, argv[3], out);
+		} else if (mode == "strm") {
+			uint64_t seed = strtoull(argv[2], nullptr, 10);
+			std::ofstream out(argv[4]);
+			for (auto &p : genStrm(seed, argv[3])) {
+				std::ostringstream tmp;
+				try { runStrm(p, tmp); out << tmp.str(); }
+				catch (const std::exception &e) {
+					std::string msg = e.what(); for (auto &c : msg) if (c == '\n') c = ' ';
+					out << "X " << p.id << " strm minDepth=" << p.minDepth << " lat=" << p.latKind << p.latVal << " error=" << msg.substr(0, 300) << "\n";
+				}
+			}
+		} else if (mode == "sreplay") {
+			std::ofstream out(argv[2]);
+			std::vector<std::string> toks;
+			for (int i = 3; i < argc; i++) { std::stringstream ss(argv[i]); std::string t; while (ss >> t) if (t != "|") toks.push_back(t); }
+			runStrm(parseSParams(toks), out);
+		} else if (mode == "lat") {
+			std::ofstream out(argv[2]);
+			runLatTable(out);
 		} else { fprintf(stderr, "unknown mode\n"); return 2; }
 	} catch (const std::exception &e) {
 		fprintf(stderr, "C15_fifo: exception: %s\n", e.what());
